@@ -46,7 +46,7 @@ def sym_expr(draw, names, holes=False, depth=0):
             st.sampled_from(sorted(HOLE_ARGS)).map(lambda a: ("hole", a)),
             st.just(("holeattr", HOLE_ATTR[0], HOLE_ATTR[1])),
         )
-    kind = draw(st.sampled_from(["bin", "bin", "bin", "call", "floordiv"] + (["hole"] if holes else [])))
+    kind = draw(st.sampled_from(["bin", "bin", "bin", "call", "floordiv", "truediv"] + (["hole"] if holes else [])))
     sub = leaf if depth >= 1 else st.one_of(leaf, leaf, sym_expr(names, holes, depth + 1))
     if kind == "hole":
         return draw(
@@ -54,6 +54,9 @@ def sym_expr(draw, names, holes=False, depth=0):
         )
     if kind == "floordiv":
         return ("bin", "//", draw(sub), ("int", draw(st.sampled_from([1, 2, 3]))))
+    if kind == "truediv":
+        # true division: the value may be non-integral (then no axis size equals it) or a float equal to a size (4/2 == 2)
+        return ("bin", "/", draw(sub), ("int", draw(st.sampled_from([2, 3, 2]))))
     if kind == "call":
         return ("call", draw(st.sampled_from(["min", "max"])), draw(sub), draw(sub))
     return ("bin", draw(st.sampled_from(["+", "-", "*"])), draw(sub), draw(sub))
@@ -175,12 +178,14 @@ def shape_for(draw, meanings, mctx: dl.MCtx, *, mutate_prob=0.6, label=None, max
                 v = dl.expr_eval(m[1], local, mctx.args)
             except (dl.Unbound, Exception):
                 v = None
-            if v is None or v < 0 or v > 40:
+            if v is not None and -1 < v < 0:
+                out.append([0])  # e.g. a/2-1 with a=1: no size equals -0.5, the nearest candidate is 0
+            elif v is None or v < 0 or v > 40:
                 out.append([draw(size)])
             elif m[2] and draw(st.integers(0, 3)) == 0:
                 out.append([1])
             else:
-                out.append([v])
+                out.append([int(v)])  # a non-integral value is truncated: the shape then does NOT match
         else:
             var_at = i
             out.append(None)
